@@ -255,6 +255,78 @@ theorem C08_fixup (l : List (Nat × Int)) (script : List (Bool × Nat)) :
   have := key script (fxInit l) (fxInit_inv l)
   exact ⟨this.1.1, this.1.2, fun hl => this.2 (fxInit_pos l hl)⟩
 
+/-- **Copied tables stay independent.** Any number of tables made from one another by
+`copy.copy` / `copy.deepcopy` / `EntityFixup(t.copy_values())` and then edited in any interleaving
+(set, delete, clear, further copies): in every table the indexes are pairwise distinct, so are
+the variables, and all indexes are positive if the initially given ones were. -/
+theorem C08_fixup_tables (l : List (Nat × Int)) (script : List FxOp) (t : Nat) (f : Fix)
+    (h : (script.foldl fxTabStep (fxTabInit l)) t = some f) :
+    (f.map (·.2)).Nodup ∧ (f.map (·.1)).Nodup ∧ ((∀ e ∈ l, 0 < e.2) → ∀ e ∈ f, 0 < e.2) := by
+  have key : ∀ (sc : List FxOp) (T : Nat → Option Fix),
+      (∀ i g, T i = some g → FxInv g ∧ ((∀ e ∈ l, 0 < e.2) → FxPos g)) →
+      ∀ i g, (sc.foldl fxTabStep T) i = some g → FxInv g ∧ ((∀ e ∈ l, 0 < e.2) → FxPos g) := by
+    intro sc
+    induction sc with
+    | nil => intro T hT; exact hT
+    | cons op rest ih =>
+      intro T hT
+      apply ih
+      intro i g hg
+      cases op with
+      | set t' v =>
+        simp only [fxTabStep] at hg
+        split at hg
+        · cases hT' : T t' with
+          | none => simp [hT'] at hg
+          | some g0 =>
+            simp only [hT', Option.map_some, Option.some.injEq] at hg
+            subst hg
+            exact ⟨fxSet_inv _ _ (hT _ _ hT').1, fun hl => fxSet_pos _ _ ((hT _ _ hT').2 hl)⟩
+        · exact hT _ _ hg
+      | del t' v =>
+        simp only [fxTabStep] at hg
+        split at hg
+        · cases hT' : T t' with
+          | none => simp [hT'] at hg
+          | some g0 =>
+            simp only [hT', Option.map_some, Option.some.injEq] at hg
+            subst hg
+            exact ⟨fxDel_inv _ _ (hT _ _ hT').1, fun hl => fxDel_pos _ _ ((hT _ _ hT').2 hl)⟩
+        · exact hT _ _ hg
+      | clear t' =>
+        simp only [fxTabStep] at hg
+        split at hg
+        · cases hT' : T t' with
+          | none => simp [hT'] at hg
+          | some g0 =>
+            simp only [hT', Option.map_some, Option.some.injEq] at hg
+            subst hg
+            exact ⟨⟨List.nodup_nil, List.nodup_nil⟩, fun _ e he => by simp at he⟩
+        · exact hT _ _ hg
+      | copy t2 t1 viaInit =>
+        simp only [fxTabStep] at hg
+        cases hT' : T t1 with
+        | none => simp only [hT'] at hg; exact hT _ _ hg
+        | some g0 =>
+          simp only [hT'] at hg
+          split at hg
+          · simp only [Option.some.injEq] at hg
+            subst hg
+            cases viaInit with
+            | false => exact hT _ _ hT'
+            | true =>
+              refine ⟨fxInit_inv _, fun hl => fxInit_pos _ ?_⟩
+              exact (hT _ _ hT').2 hl
+          · exact hT _ _ hg
+  have := key script (fxTabInit l) (by
+    intro i g hg
+    unfold fxTabInit at hg
+    split at hg
+    · simp only [Option.some.injEq] at hg; subst hg
+      exact ⟨fxInit_inv l, fun hl => fxInit_pos l hl⟩
+    · cases hg) t f h
+  exact ⟨this.1.1, this.1.2, this.2⟩
+
 example : (([(true, 4), (false, 2), (true, 5)] : List (Bool × Nat)).foldl fxStep (fxInit [(1, 1), (2, 1), (1, 3), (3, 0)]))
     = [(1, 3), (3, 0), (4, 2), (5, 1)] := by decide +kernel
 
